@@ -102,7 +102,22 @@ func vpMaterializeRaw(rowBytes []byte) (map[string]any, error) {
 //vp:preempt 1
 //vp:maxsteps 600000
 //vp:bounds two one-row files flushed by the real write path into an in-memory DataStore and the real MemoryMetaStore; the real Query (all goroutines, no conditions, MaxQueryConcurrency 1) drained by the consumer while the real Merge runs in another goroutine; at most 1 forced context switch to any goroutine before any channel/select/mutex operation plus all switches at blocking points
-func H_C14_query_racing_a_merge_sees_each_row_once_or_an_error() {
+func H_C14_query_racing_a_merge_sees_each_row_once_or_an_error() { vpQueryRacingMerge() }
+
+//vp:override (*bs.bloomEntrySets).indexRow=vpIndexRowRec
+//vp:override (*bs.bloomEntrySets).buildFilters=vpBuildFiltersRec
+//vp:override bs.encodeFilterSection=vpEncodeSectionStub
+//vp:override bs.parseFilterSection=vpParseSectionOK
+//vp:override (*bs.compiledRowMatcher).matchRowBytes=vpMatchAll
+//vp:override bs.materializeRow=vpMaterializeRaw
+//vp:preempt 2
+//vp:thorough
+//vp:maxpaths 2000000
+//vp:maxsteps 600000
+//vp:bounds two one-row files flushed by the real write path into an in-memory DataStore and the real MemoryMetaStore; the real Query (all goroutines, no conditions, MaxQueryConcurrency 1) drained by the consumer while the real Merge runs in another goroutine; at most 2 forced context switches to any goroutine before any channel/select/mutex operation plus all switches at blocking points
+func H_C14_query_racing_a_merge_two_forced_switches() { vpQueryRacingMerge() }
+
+func vpQueryRacingMerge() {
 	iw := vpNewImgWorld()
 	mem := NewMemoryMetaStore()
 	iw.b.metaStore = mem
